@@ -213,12 +213,22 @@ theorem SlotWritten.lic_data {s s' : FS} {b off : Nat} (h : SlotWritten s s' b o
 
 /-! ### The walk over a chained directory -/
 
+/-- The 32-byte slot at byte `off` of block `b` is free on the medium `d`: its first byte is `0x00` (end marker) or
+`0xE5` (deleted). -/
+def FreeAt (d : Disk) (b off : Nat) : Prop := byteAt (d.get b) off = 0 ∨ byteAt (d.get b) off = 0xE5
+
+theorem SlotWritten.freeAt {s s' : FS} {b off : Nat} (h : SlotWritten s s' b off) : FreeAt s.dev.disk b off := by
+  obtain ⟨i, _, ho, hf, _⟩ := DirSlots.firstFreeSlot_some _ off h.free
+  unfold FreeAt
+  rw [ho]
+  exact hf
+
 /-- How `writeNewWalk` over the directory with chain `dcs` ended, with the licence of its writes. -/
 inductive WalkOutcome (v : FatVolume) (dcs : List Nat) (dv dv' : Dev) : Res DirEntry → Prop
   /-- the entry went into a free slot of a cluster of the directory -/
   | slot (en : DirEntry) (x : Nat) (hx : x ∈ dcs) (h1 : clusterToBlock v x ≤ en.entryBlock)
       (h2 : en.entryBlock < clusterToBlock v x + v.blocksPerCluster) (ho : en.entryOffset + 32 ≤ 512)
-      (hal : en.entryOffset % 32 = 0)
+      (hal : en.entryOffset % 32 = 0) (hfree : FreeAt dv.disk en.entryBlock en.entryOffset)
       (lic : ∀ L : Licence, (en.entryBlock, en.entryOffset) ∈ L.slots → LicD v L dv dv') : WalkOutcome v dcs dv dv' (.ok en)
   /-- the directory was full: a free cluster `c` was blanked and linked behind the last cluster, the entry
   went into its first slot -/
@@ -233,8 +243,9 @@ theorem WalkOutcome.cons {v : FatVolume} {a : Nat} {rest : List Nat} {dv dv2 dv'
     (hw : dv2.wlog = dv.wlog) (hd : dv2.disk = dv.disk) (hne : rest ≠ []) (h : WalkOutcome v rest dv2 dv' r) :
     WalkOutcome v (a :: rest) dv dv' r := by
   cases h with
-  | slot en x hx h1 h2 ho hal lic =>
-    exact .slot en x (List.mem_cons_of_mem _ hx) h1 h2 ho hal fun L hL => (LicD.same hw hd).trans (lic L hL)
+  | slot en x hx h1 h2 ho hal hfree lic =>
+    exact .slot en x (List.mem_cons_of_mem _ hx) h1 h2 ho hal (by unfold FreeAt at hfree ⊢; rw [← hd]; exact hfree)
+      fun L hL => (LicD.same hw hd).trans (lic L hL)
   | grown en last c hl hr hfree hb ho lic =>
     refine .grown en last c ?_ hr (by rw [← hd]; exact hfree) hb ho fun L h1 h2 h3 => (LicD.same hw hd).trans (lic L h1 h2 h3)
     cases rest with
@@ -352,7 +363,7 @@ theorem writeNewWalk_lic (name : Bytes) (att fc : Nat) (now : Timestamp) (hname 
       have h2 : b < clusterToBlock s.vol a + s.vol.blocksPerCluster := by rw [← hwb, ← hws]; exact hb2
       have hreg : regionOf s.vol b = .data := data_block_region s.vol hs.geom a b hr h1 h2
       refine ⟨_, s1, rfl, hsw.sound hs (by rw [hreg]; intro e; cases e), SameGeom.of_eq hsw.vol, ?_⟩
-      exact .slot _ a List.mem_cons_self h1 h2 hsw.off_lt hsw.off_al fun L hL => hsw.lic_slot (.inr hreg) L hL
+      exact .slot _ a List.mem_cons_self h1 h2 hsw.off_lt hsw.off_al hsw.freeAt fun L hL => hsw.lic_slot (.inr hreg) L hL
 
 /-! ### Both kinds of directory -/
 
@@ -382,6 +393,7 @@ theorem dirBlock_region (v : FatVolume) (hg : WFGeom v) (dc : Nat) (dcs : List N
 inductive CreateOutcome (v : FatVolume) (dc : Nat) (dcs : List Nat) (dv dv' : Dev) : Res DirEntry → Prop
   /-- the entry went into a free slot of a block of the directory: only that slot is written -/
   | slot (en : DirEntry) (hb : DirBlock v dc dcs en.entryBlock) (ho : en.entryOffset + 32 ≤ 512) (hal : en.entryOffset % 32 = 0)
+      (hfree : FreeAt dv.disk en.entryBlock en.entryOffset)
       (lic : ∀ L : Licence, (en.entryBlock, en.entryOffset) ∈ L.slots → LicD v L dv dv') : CreateOutcome v dc dcs dv dv' (.ok en)
   /-- the chained directory was full: a free cluster `c` was blanked and linked behind the directory's
   last cluster, the entry went into its first slot -/
@@ -422,7 +434,7 @@ theorem createEntry_lic (dc : Nat) (name : Bytes) (att fc : Nat) (now : Timestam
       have hdb : DirBlock s.vol dc dcs b := by unfold DirBlock; rw [if_pos ⟨h16, hdc⟩]; exact ⟨hb1, hb2⟩
       have hreg := dirBlock_region s.vol hs.geom dc dcs b (fun hk' => absurd ⟨h16, hdc⟩ hk') hdb
       exact ⟨_, s1, rfl, hsw.sound hs (by rcases hreg with h | h <;> rw [h] <;> intro e <;> cases e), SameGeom.of_eq hsw.vol,
-        .slot _ hdb hsw.off_lt hsw.off_al fun L hL => hsw.lic_slot hreg L hL⟩
+        .slot _ hdb hsw.off_lt hsw.off_al hsw.freeAt fun L hL => hsw.lic_slot hreg L hL⟩
   · -- a chained directory
     have hch := hdir hk
     obtain ⟨h1, h2, h3, h4⟩ := Listing.dirWalkStart_chain s.vol dc hk
@@ -433,8 +445,8 @@ theorem createEntry_lic (dc : Nat) (name : Bytes) (att fc : Nat) (now : Timestam
       (dirWalkStart s.vol dc) s hs hch hlen h1 h2 h3 h4
     refine ⟨r, s', hrun, hs', hg', ?_⟩
     cases hout with
-    | slot en x hx g1 g2 ho hal lic =>
-      exact .slot en (by unfold DirBlock; rw [if_neg hk]; exact ⟨x, hx, g1, g2⟩) ho hal lic
+    | slot en x hx g1 g2 ho hal hfree lic =>
+      exact .slot en (by unfold DirBlock; rw [if_neg hk]; exact ⟨x, hx, g1, g2⟩) ho hal hfree lic
     | grown en last c hl hr hfree hb ho lic => exact .grown en last c hk hl hr hfree hb ho lic
     | full hw hd => exact .full hw hd
 
@@ -442,7 +454,8 @@ theorem CreateOutcome.of_ro {v : FatVolume} {dc : Nat} {dcs : List Nat} {dv dv1 
     (hw : dv1.wlog = dv.wlog) (hd : dv1.disk = dv.disk) (h : CreateOutcome v dc dcs dv1 dv' r) :
     CreateOutcome v dc dcs dv dv' r := by
   cases h with
-  | slot en hb ho hal lic => exact .slot en hb ho hal fun L hL => (LicD.same hw hd).trans (lic L hL)
+  | slot en hb ho hal hfree lic =>
+    exact .slot en hb ho hal (by unfold FreeAt at hfree ⊢; rw [← hd]; exact hfree) fun L hL => (LicD.same hw hd).trans (lic L hL)
   | grown en last c hk hl hr hfree hb ho lic =>
     exact .grown en last c hk hl hr (by rw [← hd]; exact hfree) hb ho fun L h1 h2 h3 => (LicD.same hw hd).trans (lic L h1 h2 h3)
   | full hw' hd' => exact .full (hw'.trans hw) (hd'.trans hd)
